@@ -8,6 +8,7 @@ the boundaries the model names (nesting 17..21 and 100, remarks of 254..257 and 
 literals of 10^5 characters, 1000 parentheses, NULs, non-ASCII, missing final newline) and
 shipped schemas: no sanitizer report, no signal, bounded time, exit status 0 or small positive
 with a diagnostic; the nesting depth at which the tools stop vs the model."""
+import glob
 import os
 import re
 import shutil
@@ -208,7 +209,7 @@ def main(tier, seed):
             cases.append((op, "gen_%d_%s_%d" % (k, op, len(cases)), t, None))
     shipped = ["data/pdm/pdm_schema_12.exp", "test/unitary_schemas/inverse_attr.exp", "test/unitary_schemas/select_data_type.exp"]
     if tier != "quick":
-        import glob
+        pass
         shipped = sorted(glob.glob(os.path.join(REPO, "data", "*", "*.exp"))) + sorted(glob.glob(os.path.join(REPO, "test", "unitary_schemas", "*.exp")))
         shipped = [os.path.relpath(p, REPO) for p in shipped]
     r = rng(seed, "c06/ship")
@@ -222,6 +223,11 @@ def main(tier, seed):
         if len(text) < 400000:
             for (op, t) in token_mutants(r, text, 2) + byte_mutants(r, text, 2):
                 cases.append(("shipped_" + op, "%s_%s_%d" % (os.path.basename(rel), op, len(cases)), t, None))
+    # the corpora of C04 (valid schemas, faulty schemas) and of C07 under the sanitizers
+    for pth in sorted(glob.glob(os.path.join(VERIF, "corpus", "C04", "valid", "*.exp"))):
+        cases.append(("corpus_valid", "cv_" + os.path.basename(pth)[:-4], open(pth).read(), ("valid", 0)))
+    for pth in sorted(glob.glob(os.path.join(VERIF, "corpus", "C04", "diag", "*.exp"))):
+        cases.append(("corpus_faulty", "cf_" + os.path.basename(pth)[:-4], open(pth).read(), None))
     jobs = []
     for ci, (cls, name, text, exp) in enumerate(cases):
         for tool in TOOLS:
